@@ -16,7 +16,7 @@ FUNCTIONS = ["SubArrayHandler._get_def_dict", "SubArrayHandler._get_key_single_i
 ASSUMPTIONS = ["subset selections are Dimension objects with a fresh letter (replace() refuses a letter already in the set)"]
 OUTSIDE = ["more than 5 dimensions", "FlodymArray right-hand sides under list selectors (partially addressed dimension keeps its full-length letter)",
            "items_where on arrays with more than 6 entries (one fork per entry)"]
-VARIANTS = 'tuple keys mixing unknown and shared labels; keys that merely convert to an item of a typed dimension; integer items out of order / unevenly spaced; falsy labels'
+VARIANTS = 'items_where with a NaN entry and conditions that hold at NaN; tuple keys mixing unknown and shared labels; keys that merely convert to an item of a typed dimension; integer items out of order / unevenly spaced; falsy labels'
 BOUNDS = {
     "quick": dict(arrays="1-3 dims, lengths (3) (2,3) (3,2) (2,2) (2,2,2) (2,3,2) (1,2,3) (4) (5) (4,2) and one 5-d array (2,2,2,2,2) with single selections of the last item only", selectors="none / single item / subset Dimension (every ordered non-empty subset) / list (writes)",
                   spellings="dict by letter, dict by name, bare item, tuple (both orders), ellipsis", items_where_entries="<= 6"),
@@ -60,6 +60,8 @@ def configs(tier, seed):
                 out.append(dict(h="write", op=rhs, key=f"write/{shape}/{sel_key(sel)}/{rhs}", xd=xd, lens=lens, sel=[list(s) for s in sel], sp=sp, rhs=rhs))
         out.append(dict(h="errors", op="err", key=f"errors/{shape}", xd=xd, lens=lens))
         if int(np.prod(list(lens.values()))) <= 6:
+            for cmp_ in ("isnan", "ne", "not_ge"):
+                out.append(dict(h="items_where", op=cmp_ + "nan", key=f"items_where/{shape}/{cmp_}/nan_entry", xd=xd, lens=lens, cmp=cmp_, nan_entry=True))
             for cmp_ in ("gt", "lt"):
                 out.append(dict(h="items_where", op=cmp_, key=f"items_where/{shape}/{cmp_}", xd=xd, lens=lens, cmp=cmp_))
                 if len(xd) >= 2:
@@ -411,6 +413,27 @@ def run(cfg, w):
             except Exception:
                 w.ob(f"{name}_raises", True)
             w.ob_arr_eq(f"{name}:x_unchanged", x.values, X)
+        return
+    if h == "items_where" and cfg.get("nan_entry"):
+        # one entry is NaN (or not, both explored); conditions that hold at NaN report it like any other entry
+        c = w.real("c")
+        last = tuple(k - 1 for k in shape)
+        flag = w.boolean("last_entry_is_nan", default=True)
+        x.values[last] = w.with_nan(X[last], flag)
+        cond = {"isnan": lambda v: np.isnan(v), "ne": lambda v: v != c, "not_ge": lambda v: ~(v >= c)}[cfg["cmp"]]
+        rows = x.items_where(cond)
+        rows = [tuple(r) for r in np.asarray(rows).reshape(-1, len(xd)).tolist()] if np.size(rows) else []
+        w.ob("no_duplicate_rows", len(rows) == len(set(rows)))
+        for idx in np.ndindex(*shape):
+            lab = tuple(dims[l].items[i] for l, i in zip(xd, idx))
+            isn = flag if idx == last else False
+            if cfg["cmp"] == "isnan":
+                holds = isn
+            elif cfg["cmp"] == "ne":
+                holds = w.or_(isn, w.ne(X[idx], c))
+            else:
+                holds = w.or_(isn, w.lt(X[idx], c))
+            w.ob(f"reported_iff_condition{list(idx)}", w.iff(lab in rows, holds))
         return
     if h == "items_where":
         c = w.real("c")
